@@ -24,11 +24,15 @@ type vxConn struct {
 	eofs     int      // Read returns io.EOF this many times before anything else
 	script   [][]byte // datagrams handed to the reader, one per Read
 	after    func()   // called by the Read that finds the script exhausted (e.g. observe, then Close)
+	cp       func()   // control point: other goroutines may run here (vh_C10_preempt)
 }
 
 func newVxConn() *vxConn { return &vxConn{unblock: make(chan struct{})} }
 
 func (c *vxConn) Write(p []byte) (int, error) {
+	if c.cp != nil {
+		c.cp() // the write has not happened yet
+	}
 	if c.failNext {
 		c.failNext = false
 		return 0, errVxWrite
@@ -36,6 +40,9 @@ func (c *vxConn) Write(p []byte) (int, error) {
 	cp := make([]byte, len(p))
 	copy(cp, p)
 	c.writes = append(c.writes, cp)
+	if c.cp != nil {
+		c.cp() // written, the caller has not resumed yet
+	}
 	return len(p), nil
 }
 
@@ -65,6 +72,9 @@ func (c *vxConn) Read(p []byte) (int, error) {
 }
 
 func (c *vxConn) Close() error {
+	if c.cp != nil {
+		c.cp()
+	}
 	c.closed++
 	if c.closed == 1 {
 		close(c.unblock)
@@ -72,15 +82,24 @@ func (c *vxConn) Close() error {
 	return c.closeErr
 }
 
-type vxClock struct{ now time.Time }
+type vxClock struct {
+	now time.Time
+	cp  func()
+}
 
-func (c *vxClock) Now() time.Time { return c.now }
+func (c *vxClock) Now() time.Time {
+	if c.cp != nil {
+		c.cp()
+	}
+	return c.now
+}
 
 type vxCollector struct {
 	f       func(time.Time)
 	started int
 	closed  int
 	onClose func() // runs inside Close (another caller overlapping at this point)
+	cp      func()
 }
 
 func (c *vxCollector) Start(rate time.Duration, f func(now time.Time)) error {
@@ -90,6 +109,9 @@ func (c *vxCollector) Start(rate time.Duration, f func(now time.Time)) error {
 }
 
 func (c *vxCollector) Close() error { // precondition of C15: the collector's Close succeeds
+	if c.cp != nil {
+		c.cp() // the ticker goroutine has not been stopped yet
+	}
 	c.closed++
 	if c.onClose != nil {
 		f := c.onClose
